@@ -10,6 +10,16 @@ E3 = "E3 cooperative scheduler + preemption-bounded DFS (harness/vsched, harness
 
 # id -> (level, engine, technique, text, note, design_ref)
 CHECKS = {
+    "C02": ("exploration", E2,
+            "bounded-exhaustive enumeration of sort specifications x skip/limit x predicates x all assignments of the sort fields; differential against a reference sorter/pager over four query routes",
+            "All sort specifications of 0..2 fields (thorough: every pair, 3 and 5 fields), every direction spelling, 56 skip/limit combinations (absent, none, negative, 0, beyond the end) and four predicate shapes are run on ALL assignments of the sort fields over {null,v1,v2} on 4 entities; ids, order and total count from QueryIds, QueryIdsC on a re-used query, QueryWithCursorC over an index cursor and IterateIds must equal the reference.",
+            "4 entities; domains of 3 values (2 when two or more sort fields); dotted sort fields are not supported by the engine and not generated.",
+            "DESIGN.md §4 C02"),
+    "C19": ("exploration", E2,
+            "bounded-exhaustive differential: object store vs bolt store vs reference on every scalar filter atom/composition and every sort/skip/limit query over all small datasets",
+            "Every scalar-symbol filter of C01 and every sort/paging query of C02 is run on objectz.ObjectStore and on a bolt store holding the same values for ALL assignments of the mentioned fields; ids, order and total count must agree with each other and with the reference.",
+            "Fields of the five scalar types or null; 2 entities for filters, 4 for paging.",
+            "DESIGN.md §4 C19"),
     "C01": ("exploration", E2,
             "bounded-exhaustive enumeration of filter atoms and compositions x all field assignments over tiny domains; differential against an independent reference evaluator on real bolt stores",
             "Every (symbol kind x operator x literal) atom the grammar and typer admit - scalars of all five types, any-typed map element, fk, dotted one/two-hop symbols, anyOf/allOf/count/isEmpty over direct (seekable), dotted (scanned) and link sets, sub-queries - and all 2-atom (thorough: 3-atom) compositions are evaluated on ALL assignments of the mentioned fields; QueryIds, QueryIdsC and IterateIds must each return exactly the ids the reference evaluator selects.",
